@@ -759,7 +759,45 @@ def eviction_case(ctx, c):
             ctx.ok(('add-after-eviction', spec), True)
 
 
+def mode_case(ctx, c):
+    """The data is the concatenation of the items' encodings - each made under the mxfp_overflow setting in force when the item was stored."""
+    from rv.model import minifloat as mf
+    fmt, x = c['fmt'], c['x']
+    codec = mf.CODECS[fmt]
+
+    def enc(v, mode):
+        return format(codec.encode(v, mode), f'0{codec.nbits}b')
+    with util.options(lsb0=False, mxfp_overflow='saturate'):
+        a = Array(fmt, [x, 1.0])
+        exp = [enc(x, 'saturate'), enc(1.0, 'saturate')]
+        steps = [('overflow', 'append', lambda: a.append(x), lambda m: exp.append(enc(x, m))),
+                 ('overflow', 'setitem', lambda: a.__setitem__(1, x), lambda m: exp.__setitem__(1, enc(x, m))),
+                 ('saturate', 'insert', lambda: a.insert(0, x), lambda m: exp.insert(0, enc(x, m))),
+                 ('saturate', 'extend', lambda: a.extend([x, x]), lambda m: exp.extend([enc(x, m)] * 2)),
+                 ('overflow', 'setslice', lambda: a.__setitem__(slice(0, 2), [x, x]), lambda m: exp.__setitem__(slice(0, 2), [enc(x, m)] * 2)),
+                 ('overflow', 'ctor', lambda: None, lambda m: None)]
+        for mode, how, do, model in steps:
+            bitstring.options.mxfp_overflow = mode
+            g = call(do)
+            model(mode)
+            ctx.op('store-under-mxfp_overflow:' + how)
+            got = B(a.data)
+            if g[0] != 'ok' or got != ''.join(exp):
+                ctx.mismatch(f'C14|data-is-concatenation|{fmt}|item-stored-under-{mode}-by-{how}', c, f'{x!r}: data {got[:96]} expected {"".join(exp)[:96]} ({g!r:.60})')
+                return
+            if how == 'ctor':
+                fresh = call(lambda: B(Array(fmt, [x]).data))
+                if fresh != ('ok', enc(x, mode)):
+                    ctx.mismatch(f'C14|data-is-concatenation|{fmt}|item-stored-under-{mode}-by-ctor', c, f'{x!r}: {fresh!r:.80} expected {enc(x, mode)}')
+                    return
+        ctx.ok(('mxfp-mode', fmt), True)
+
+
 def run(ctx):
+    if ctx.shard in (2, 3) or ctx.nshards < 4:
+        for fmt in ('e5m2mxfp', 'e4m3mxfp'):
+            for x in (1e6, -1e6, 500.0, 60000.0, -70000.0, 449.0, 1e300):
+                ctx.run_case(mode_case, {'kind': 'mxfp-mode', 'fmt': fmt, 'x': x})
     if ctx.shard in (0, 1):
         for k, (spec, items) in enumerate((('uint8', [1, 2, 3]), ('float32', [0.5, -2.0]), ('<H', [1, 515]), ('int5', [-3, 4]), ('uint12', [7, 8, 9, 10]))):
             ctx.run_case(eviction_case, {'kind': 'eviction', 'dtype': spec, 'items': items, 'from': 70 + 300 * ctx.shard + 17 * k, 'n': 300})
@@ -803,6 +841,8 @@ def run(ctx):
 def replay(ctx, case):
     if case.get('kind') == 'eviction':
         ctx.run_case(eviction_case, case)
+    elif case.get('kind') == 'mxfp-mode':
+        ctx.run_case(mode_case, case)
     elif case.get('kind') == 'promo':
         ctx.run_case(promo_case, case)
     elif 'kind' in case:
